@@ -19,7 +19,10 @@ def pessimistic(ct, node):
     f = ct[1]
     if f[0] == "attr" and f[2] in TOTAL_ATTRS:
         return False
-    if f[0] == "glob" and f[1] in ("ext:builtins.min", "ext:builtins.max", "ext:builtins.isinstance", "ext:builtins.len"):
+    if f[0] == "glob" and f[1] in ("ext:builtins.min", "ext:builtins.max", "ext:builtins.isinstance", "ext:builtins.len", "ext:contextlib.ExitStack", "ext:contextlib.AsyncExitStack"):
+        return False
+    # registering a callback on an ExitStack is bookkeeping (append to a deque): it does not fail
+    if f[0] == "attr" and f[2] in ("callback", "push") and f[1][0] == "enter" and strip_sites(f[1][1])[:2] in (("call", ("glob", "ext:contextlib.ExitStack")), ("call", ("glob", "ext:contextlib.AsyncExitStack"))):
         return False
     return True
 
@@ -429,3 +432,5 @@ def run(chk):
     chk.guard("O12.4", META, c02.mapping_cleared, chk, "O12.4")
     chk.guard("O12.6", "<runners>", c02.aclose_wakes_manage, chk, "O12.6")
     chk.guard("O12.6", META + ".stop", c02.stop_chain, chk)
+    # "whatever the payloads are doing": closing never waits for thread payloads (shared with C02)
+    chk.guard("O2.5", "<thread runner>", c02.thread_runner, chk)
